@@ -25,13 +25,14 @@ from ..paramtree import build, canon, describe, trees, tree_size
 INF = float('inf')
 FULL = [None, True, False, 0, 1, -1, 2 ** 63, 0.0, 1.0, 1.5, 1e-300, INF, -INF, 'inf', 'Infinity', '-inf', 'nan', 'NaN', '', 'a', 'A', '1', '1.0', 'None', 'null', 'true',
         '[]', 'é', 'a/b', ' ', 'RED', A.Color.RED, A.Color.GREEN, A.Shade.RED, B.Color.RED, A.StrEnumLike.RED,
+        'caf\u00e9', 'cafe\u0301', '\u212b', '\u00c5',      # canonically equivalent, different code point sequences
         A.Perm.R, A.Perm.RW, A.Perm.R | A.Perm.X, A.Perm.W | A.Perm.X, A.Perm(0), A.IPerm.A | A.IPerm.B, A.IPerm(0), A.IPerm(8), A.IPerm(9)]
 SMALL = [None, True, 1, 1.0, '1', 'a', A.Color.RED, A.Shade.RED]
 TINY = [None, 1, '1', A.Color.RED]
 
 TYPES = {'Foo': A.Foo, 'FooBar': A.FooBar, 'Foo_': A.Foo_, 'BFoo': B.Foo, 'JFoo': A.JFoo, 'P2': A.P2,
          'Leaf': A.Leaf, 'BLeaf': B.Leaf, 'NoCacheT': A.NoCacheT, 'PFoo': A.PFoo,
-         'Modèle': getattr(A, 'Modèle'), 'Эксперимент': getattr(A, 'Эксперимент'), 'DFoo': A.DFoo, 'SubFoo': A.SubFoo}
+         'Modèle': getattr(A, 'Modèle'), 'Эксперимент': getattr(A, 'Эксперимент'), 'DFoo': A.DFoo, 'SubFoo': A.SubFoo, 'Fit__v2': A.Fit__v2, 'Fit_': A.Fit_, 'EFoo': A.EFoo, 'ABFoo': A.ABFoo}
 OUTER = ('Foo', 'BFoo', 'FooBar', 'Foo_', 'JFoo', 'P2', 'PFoo', 'Modèle', 'Эксперимент')
 
 
@@ -81,6 +82,17 @@ def space(tier: str):
         for y in (None, ('s', None), ('s', 100), ('s', 0), ('s', 'a')):
             out.append(('DFoo', ('s', x), y))
     out.append(('Foo', ('t', 'DFoo', ('s', 1)), None))
+    # type names containing / ending with the key separator; cache formats with an empty or odd key prefix
+    for tn in ('Fit__v2', 'Fit_', 'EFoo', 'ABFoo'):
+        for x in SMALL:
+            out.append((tn, ('s', x), None))
+        out.append((tn, ('l', (('t', 'Leaf', ('s', 1)), ('s', 'a'))), ('t', 'Leaf', ('s', 2))))
+    # sequences of numbers whose digits run together the same way
+    for seq in ((1, 23), (12, 3), (123,), (1, 2, 3), (1.5, 2), (1.52,), (15, 2), ('1', 23), ('12', '3'), (-1, 2), (-12,), (1, -2)):
+        tr = ('l', tuple(('s', x) for x in seq))
+        out.append(('Foo', tr, None))
+        out.append(('JFoo', ('d', (('k', tr),)), None))
+        out.append(('Foo', ('t', 'Leaf', tr), None))
     # a derived task type that adds a parameter (third element = the added parameter r): tasks differing
     # only in r, or only in an inherited parameter
     for x in SMALL[:4]:
